@@ -61,10 +61,10 @@ PROPS = {
     },
     "C20": {
         "claim": "Theorems about the DFS, Kahn, Tarjan and topological shortest-path models for every representation (iteration) order; executable checkers for topological orders and SCC partitions proved sound and complete and applied to the real code's outputs on generated digraphs.",
-        "note": "Exactness of the Tarjan transcription is decided through the verified partition checker applied to model and code outputs (partial; see DESIGN.md §10).",
+        "note": "tarjan_exact: the Tarjan transcription returns exactly the mutual-reachability classes for every graph and every iteration order (the verified partition checker is still applied to the real code's outputs).",
         "theorems": ["ArgMapper.C20.dfs_exact", "ArgMapper.C20.dfs_sound_once", "ArgMapper.C20.dfs_abort",
                      "ArgMapper.C20.isTopoOrder_iff", "ArgMapper.C20.kahn_acyclic", "ArgMapper.C20.kahn_cyclic",
-                     "ArgMapper.C20.reachB_iff", "ArgMapper.C20.isSccPartition_iff", "ArgMapper.C20.topo_exact"],
+                     "ArgMapper.C20.reachB_iff", "ArgMapper.C20.isSccPartition_iff", "ArgMapper.C20.topo_exact", "ArgMapper.C20.tarjan_exact"],
         "modules": ["ArgMapper.Props.C20"],
         "rule": "dfs/kahn/scc/topo: >=3 vertices and >=2 edges.",
         "runs": {
@@ -147,8 +147,8 @@ PROPS = {
                  "thorough": [fam("call", 50000, 0, "fail"), fam("call", 20000, 0, "general"), fam("call", 10000, 0, "gens")]},
     },
     "C05": {
-        "claim": "Theorems for the subtype-free fragment, every oracle: complete_single (single-input converters, cycles allowed: once callGraph finds every parameter reachable the call ends in success or in a function body's own error) and stable (the outcome class does not depend on the oracle). Subtypes and the multi-input acyclic clause by exploration. Chaining is complete and the outcome stable on well-behaved converter sets. Tied to the code by trace conformance on acyclic-satisfiable and single-input-cyclic families, 8 repetitions per scenario; completeness is judged against the matching table, with the table-but-not-library matches (gaps G1-G5) listed as known findings.",
-        "note": "", "theorems": ["ArgMapper.C05.complete_single", "ArgMapper.C05.stable", "ArgMapper.C05.newFunc_setsWF", "ArgMapper.C05.counterexample_duplicate_named_key", "ArgMapper.C05.counterexample_values_without_struct"], "facts": {"r5SkipSame": "true", "r6NameTest": "true", "publishAfterUpdate": "true", "trackReaching": "true", "takeValuedNamed": "true", "memoCopy": "true"},
+        "claim": "Theorems for the subtype-free fragment, every oracle: complete_single (single-input converters, cycles allowed: once callGraph finds every parameter reachable the call ends in success or in a function body's own error) stable (the outcome class does not depend on the oracle) and complete_acyclic (clause (b): any number of inputs per converter, the pruned graph acyclic and every surviving converter with all its requirements in the graph). Subtypes by exploration. Chaining is complete and the outcome stable on well-behaved converter sets. Tied to the code by trace conformance on acyclic-satisfiable and single-input-cyclic families, 8 repetitions per scenario; completeness is judged against the matching table, with the table-but-not-library matches (gaps G1-G5) listed as known findings.",
+        "note": "", "theorems": ["ArgMapper.C05.complete_single", "ArgMapper.C05.stable", "ArgMapper.C05.newFunc_setsWF", "ArgMapper.C05.counterexample_duplicate_named_key", "ArgMapper.C05.counterexample_values_without_struct", "ArgMapper.C05.complete_acyclic"], "facts": {"r5SkipSame": "true", "r6NameTest": "true", "publishAfterUpdate": "true", "trackReaching": "true", "takeValuedNamed": "true", "memoCopy": "true"},
         "rule": "call: at least one function executed, or an unsatisfied error with a converter present.",
         "runs": {"quick": [fam("call", 300, 0, "single"), fam("call", 300, 0, "acyclic")],
                  "thorough": [fam("call", 30000, 0, "single"), fam("call", 30000, 0, "acyclic")]},
